@@ -11,6 +11,7 @@ type Params struct {
 	Wide     bool // report-only: reorderings beyond what C19 promises (SYN/FIN swaps, larger displacement, FIN before earlier data)
 	Snaplen  bool // the capture is taken with a snap length below the size of some data frames (no fragmenting router)
 	NoSYN    bool // the tap omits the client's SYN, or SYN and SYN-ACK, of most connections: the capture starts inside the handshake
+	V4Only   bool // every connection over IPv4 (for harnesses whose subject is not the address family)
 	Large    bool // a connection with segments of 30..64 KiB (TSO-like, 40..260 KiB per direction), one of them overtaken by the next 1..3 or omitted by the tap
 }
 
@@ -43,6 +44,7 @@ var FaultNames = [NumFaults]string{"loss_before_tap", "loss_after_tap", "duplica
 
 type Host struct {
 	IP    [4]byte
+	IP6   [16]byte // every host has an address of either family; a connection uses one family
 	MAC   [6]byte
 	ipID  uint16
 	ttl   uint8
@@ -64,6 +66,9 @@ type Conn struct {
 	// client's SYN (every copy), 2 = every SYN and SYN-ACK
 	omitSyn int
 	jumbo   bool
+	// V6: the connection is carried over IPv6 (between the hosts' IPv6
+	// addresses); it never passes the IPv4-fragmenting router
+	V6 bool
 }
 
 // path is one direction of one connection through the network.
@@ -104,8 +109,9 @@ type packet struct {
 // oracle needs.
 type TapRec struct {
 	T       int64  // simulated nanoseconds
-	IP      []byte // IPv4 packet or fragment
+	IP      []byte // IPv4 packet or fragment, or IPv6 packet
 	Whole   []byte // the datagram before the router (== IP unless fragmented)
+	V6      bool
 	SrcHost int
 	Conn    int
 	Side    int // 0 = sent by the client
@@ -137,6 +143,9 @@ type World struct {
 	Events int
 	Now    int64
 	Err    string // generator self-check failure (a harness bug, never a finding)
+	// FamMode: 0 = every connection over IPv4, 1 = every connection over
+	// IPv6, 2 = drawn per connection (mixed capture)
+	FamMode int
 
 	now         int64
 	q           []event
@@ -225,6 +234,10 @@ func Generate(c Chooser, p Params) *World {
 	}
 	nHost := rng(c, 2, 4)
 	runSize := pick(c, 0, 0, 1, 0, 2, 0, 0, 1) // 0: every stream < 2 KiB, 1: up to 16 KiB, 2: up to 64 KiB
+	w.FamMode = pick(c, 0, 2, 1, 0, 2, 0, 1, 2)
+	if p.V4Only {
+		w.FamMode = 0
+	}
 	for i := 0; i < nHost; i++ {
 		h := &Host{Index: i}
 		for try := 0; ; try++ {
@@ -254,6 +267,21 @@ func Generate(c Chooser, p Params) *World {
 			}
 		}
 		h.MAC = [6]byte{0x02, byte(c.Intn(256)), byte(c.Intn(256)), byte(c.Intn(256)), byte(c.Intn(256)), byte(i)}
+		for try := 0; ; try++ {
+			h.IP6 = drawIPv6(c, h.MAC, h.IP)
+			if try > 3 {
+				h.IP6[0], h.IP6[1], h.IP6[14], h.IP6[15] = 0x20, 0x01, byte(try), byte(1+i)
+			}
+			dup := false
+			for _, o := range w.Hosts {
+				if o.IP6 == h.IP6 {
+					dup = true
+				}
+			}
+			if !dup {
+				break
+			}
+		}
 		h.ipID = uint16(pick(c, 0, 1, 0xfff0, 0x7ff8, c.Intn(65536)))
 		h.ttl = uint8(pick(c, 64, 128, 255, 1))
 		h.tos = uint8(pick(c, 0, 0, 0x10, 0xb8))
@@ -295,6 +323,9 @@ func Generate(c Chooser, p Params) *World {
 			cn.omitSyn = pick(c, 1, 2, 1, 0, 2)
 		}
 		cn.jumbo = p.Large && (i == 0 || chance(c, 1, 4))
+		if fam := c.Intn(2); w.FamMode == 1 || (w.FamMode == 2 && fam == 1) {
+			cn.V6 = true
+		}
 		jumboSide := 0
 		if cn.jumbo {
 			jumboSide = c.Intn(3) // 2 = both directions
@@ -391,6 +422,17 @@ func Generate(c Chooser, p Params) *World {
 			e.smallCuts = chance(c, 1, 3)
 			e.reseg = chance(c, 1, 4)
 			e.eagerFin = p.Wide && chance(c, 1, 2)
+			if cn.V6 {
+				e.flow = uint32(pick(c, 0, c.Intn(1<<20), 0xfffff, c.Intn(1<<20)))
+				// one extension header in front of TCP: none, hop-by-hop
+				// options or destination options, of 8, 16 or 24 bytes
+				kind := pick(c, 0, 0, 1, 2, 0, 0)
+				units := pick(c, 1, 2, 1, 3)
+				if GenExtHeaders && kind != 0 {
+					e.extKind = [3]uint8{0, nhHopByHop, nhDestOpts}[kind]
+					e.ext = extHeader6(nhTCP, units)
+				}
+			}
 			cn.Ends[side] = e
 		}
 		cn.Ends[0].peer, cn.Ends[1].peer = cn.Ends[1], cn.Ends[0]
@@ -420,6 +462,9 @@ func Generate(c Chooser, p Params) *World {
 			}
 			if m > 65495-12 {
 				m = 65495 - 12
+			}
+			if cn.V6 && m > 65495-12-24 {
+				m = 65495 - 12 - 24 // the IPv6 payload length counts the extension header
 			}
 			if lo := (len(e.Data) + 63) / 64; m < lo {
 				m = lo
@@ -641,7 +686,7 @@ func (w *World) transmit(p *packet) {
 	switch w.drawFault() {
 	case 1: // lost before the tap
 		nf := 1
-		if w.MTU > 0 && len(p.raw) > w.MTU {
+		if w.MTU > 0 && !cn.V6 && len(p.raw) > w.MTU {
 			nf = (len(p.raw) - 20 + (w.MTU-20)/8*8 - 1) / ((w.MTU - 20) / 8 * 8)
 		}
 		if nf > 1 && chance(w.c, 1, 2) {
@@ -743,7 +788,7 @@ func (w *World) tapPass(p *packet) {
 	e := p.from
 	frags := [][]byte{p.raw}
 	order := []int{0}
-	if w.MTU > 0 && len(p.raw) > w.MTU {
+	if w.MTU > 0 && !e.conn.V6 && len(p.raw) > w.MTU { // the fragmenting router is on the IPv4 path only
 		frags = fragmentIPv4(p.raw, w.MTU)
 		w.fault(FFragment)
 		order = order[:0]
@@ -792,7 +837,7 @@ func (w *World) tapPass(p *packet) {
 			t = w.lastTapT + 1
 		}
 		w.lastTapT = t
-		w.Tap = append(w.Tap, TapRec{T: t, IP: frags[i], Whole: p.raw, SrcHost: e.host.Index, Conn: e.conn.Idx, Side: e.side, Flags: p.flags,
+		w.Tap = append(w.Tap, TapRec{T: t, IP: frags[i], Whole: p.raw, V6: e.conn.V6, SrcHost: e.host.Index, Conn: e.conn.Idx, Side: e.side, Flags: p.flags,
 			SeqOff: p.seqOff, DataOff: p.dataOff, PayLen: p.payLen, Xmit: p.xmit, Frag: i, NFrag: len(frags),
 			Omitted: omitFrag == -1 || omitFrag == i})
 	}
@@ -819,21 +864,37 @@ func (w *World) deliver(p *packet, frags [][]byte, order []int) {
 	for _, i := range order {
 		arrived = append(arrived, frags[i])
 	}
-	ip, err := reassembleIPv4(arrived)
-	if err != nil {
-		w.Err = "generator-fragmenter: " + err.Error()
-		return
+	var src, dstA Addr
+	var seg []byte
+	if p.from.conn.V6 {
+		if len(arrived) != 1 || !bytes.Equal(arrived[0], p.raw) {
+			w.Err = "generator-ip6: an IPv6 packet was fragmented"
+			return
+		}
+		ih, s6, err := parseIPv6(arrived[0])
+		if err != nil || ih.proto != nhTCP || ih.totalLen != len(p.raw) {
+			w.Err = fmt.Sprintf("generator-ip6: %v (upper layer %d)", err, ih.proto)
+			return
+		}
+		src, dstA, seg = addr6(ih.src), addr6(ih.dst), s6
+	} else {
+		ip, err := reassembleIPv4(arrived)
+		if err != nil {
+			w.Err = "generator-fragmenter: " + err.Error()
+			return
+		}
+		if !bytes.Equal(ip, p.raw) {
+			w.Err = "generator-fragmenter: reassembled datagram differs from the one sent"
+			return
+		}
+		ih, s4, err := parseIPv4(ip)
+		if err != nil || ih.proto != 6 {
+			w.Err = fmt.Sprintf("generator-ip: %v", err)
+			return
+		}
+		src, dstA, seg = addr4(ih.src), addr4(ih.dst), s4
 	}
-	if !bytes.Equal(ip, p.raw) {
-		w.Err = "generator-fragmenter: reassembled datagram differs from the one sent"
-		return
-	}
-	ih, seg, err := parseIPv4(ip)
-	if err != nil || ih.proto != 6 {
-		w.Err = fmt.Sprintf("generator-ip: %v", err)
-		return
-	}
-	th, payload, err := parseTCP(ih.src, ih.dst, seg)
+	th, payload, err := parseTCPAddr(src, dstA, seg)
 	if err != nil {
 		w.Err = "generator-tcp: " + err.Error()
 		return
@@ -843,7 +904,7 @@ func (w *World) deliver(p *packet, frags [][]byte, order []int) {
 	for _, cn := range w.Conns {
 		for side := 0; side < 2; side++ {
 			e := cn.Ends[side]
-			if e.host.IP == ih.dst && e.Port == th.dp && e.peer.host.IP == ih.src && e.peer.Port == th.sp {
+			if e.Addr() == dstA && e.Port == th.dp && e.peer.Addr() == src && e.peer.Port == th.sp {
 				dst = e
 			}
 		}
@@ -856,4 +917,65 @@ func (w *World) deliver(p *packet, frags [][]byte, order []int) {
 		p.from.segs[p.seg].delivered = true
 	}
 	dst.input(w, th, payload)
+}
+
+// GenExtHeaders: IPv6 connections may carry one hop-by-hop or destination
+// options header in front of TCP (verified on the unchanged tree that fq
+// reassembles through both, see DESIGN C19).
+var GenExtHeaders = true
+
+// drawIPv6 draws a host's IPv6 address. The styles are chosen for what their
+// textual form exercises: runs of zero groups at the start, in the middle and
+// at the end, two runs of equal length, a single zero group, leading zeros
+// within a group.
+func drawIPv6(c Chooser, mac [6]byte, ip4 [4]byte) [16]byte {
+	var a [16]byte
+	g := func(i int, v int) { a[2*i], a[2*i+1] = byte(v>>8), byte(v) }
+	switch c.Intn(8) {
+	case 0: // documentation prefix, interface identifier in the last group
+		g(0, 0x2001)
+		g(1, 0x0db8)
+		g(2, c.Intn(1<<16))
+		g(7, 1+c.Intn(0xffff))
+	case 1: // link local with a modified EUI-64 of the MAC
+		g(0, 0xfe80)
+		a[8], a[9], a[10], a[11], a[12], a[13], a[14], a[15] = mac[0]^2, mac[1], mac[2], 0xff, 0xfe, mac[3], mac[4], mac[5]
+	case 2: // unique local, random
+		a[0] = 0xfd
+		for i := 1; i < 16; i += 2 {
+			v := c.Intn(1 << 16)
+			a[i] = byte(v >> 8)
+			if i+1 < 16 {
+				a[i+1] = byte(v)
+			}
+		}
+	case 3, 4: // every group zero, small or random
+		for i := 0; i < 8; i++ {
+			switch c.Intn(3) {
+			case 1:
+				g(i, 1+c.Intn(0xff))
+			case 2:
+				g(i, c.Intn(1<<16))
+			}
+		}
+	case 5: // loopback and its neighbours; one time in sixteen the IPv4-mapped form of the host's IPv4 address
+		a[15] = byte(1 + c.Intn(254))
+		if c.Intn(16) == 15 {
+			a[10], a[11] = 0xff, 0xff
+			copy(a[12:], ip4[:])
+		}
+	case 6: // a prefix followed by zeros only
+		g(0, 0x2001)
+		g(1, 0x0db8)
+		g(2, 1+c.Intn(0xffff))
+		if c.Intn(2) == 1 {
+			g(3, 1+c.Intn(0xffff))
+		}
+	case 7: // global unicast with a privacy style identifier
+		g(0, 0x2000|c.Intn(0x2000))
+		for i := 1; i < 8; i++ {
+			g(i, c.Intn(1<<16))
+		}
+	}
+	return a
 }
